@@ -256,8 +256,30 @@ def check(ctx, rep):
     cg_ = ctx.fn(ST + ':StringSpace.collect_garbage')
     loops = [l for l in cg_.body if isinstance(l, ast.For)]
     rest = [l for l in loops if norm(l.iter) == 'string_list']
-    ok = len(rest) == 1 and [norm(s) for s in rest[0].body] == ["view[:] = struct.pack('<BH', *self.store(string, check_free=False))"]
-    rep.ob('collector.rewrites-same-view', 'every re-stored string updates the pointer view it came from', ok, '', ctx.where(cg_))
+    ok = False
+    once = False
+    if len(rest) == 1:
+        lp = rest[0]
+        fl_ = ctx.flow(cg_)
+        # every iteration ends by writing a pointer into the view of that iteration, unconditionally
+        wr = [s for s in lp.body if isinstance(s, ast.Assign) and norm(s.targets[0]) == 'view[:]']
+        stores = [c for c in own_nodes(lp) if isinstance(c, ast.Call) and norm(c) == 'self.store(string, check_free=False)']
+        if len(wr) == 1 and lp.body[-1] is wr[0] and len(stores) == 1:
+            v = wr[0].value
+            if norm(v) == "struct.pack('<BH', *self.store(string, check_free=False))":
+                ok = True           # stored on every iteration
+            elif isinstance(v, ast.Name):
+                # the pointer written is either freshly packed from store(), or the one kept from the previous iteration
+                defs_ = [a for a in own_nodes(lp) if isinstance(a, ast.Assign) and norm(a.targets[0]) == v.id]
+                fresh = [a for a in defs_ if norm(a.value) == "struct.pack('<BH', *self.store(string, check_free=False))"]
+                kept = [a for a in defs_ if a not in fresh]
+                # the kept pointer is used only for a string with the same old address and length as the one just stored
+                same = all(any(f.pol and '(addr, len(string))' in f.text and '==' in f.text for f in fl_.facts(a)) for a in kept)
+                ok = len(fresh) == 1 and len(kept) <= 1 and same
+                once = len(kept) == 1 and same
+    rep.ob('collector.rewrites-same-view', 'every root gets the pointer of its re-stored string written into its own view', ok, '', ctx.where(cg_))
+    rep.ob('collector.one-copy-per-string', 'roots that point at the same string (same old address and length) share one re-stored copy', once,
+           'the string is stored once per pointer: with a variable and its value on the expression stack both live, string space grows into the array area', ctx.where(cg_))
     stmts = [norm(s) for s in cg_.body]
     try:
         i_sort = [i for i, s in enumerate(stmts) if s.startswith('string_list.sort(')][0]
@@ -453,8 +475,11 @@ def variants(ctx):
         Va('scalar-roots-are-copies', 'break', S,
            in_fn('Scalars.get_strings', lambda fn: mu.replace_expr(fn, mu.text_is('memoryview(value)'), 'memoryview(bytearray(value))')), expect='roots.scalar-views'),
         Va('collector-does-not-rewrite', 'break', ST,
-           in_fn('StringSpace.collect_garbage', lambda fn: mu.replace_stmt(fn, mu.stmt_has("view[:] = struct.pack('<BH'", ast.Assign), 'self.store(string, check_free=False)')),
+           in_fn('StringSpace.collect_garbage', lambda fn: mu.replace_stmt(fn, mu.text_is('view[:] = pointer'), 'pass')),
            expect='collector.rewrites'),
+        Va('collector-stores-once-per-pointer', 'break', ST,
+           in_fn('StringSpace.collect_garbage', lambda fn: mu.replace_expr(fn, mu.text_is('previous is not None and previous[0] == (addr, len(string))'), 'False')),
+           expect='collector.one-copy-per-string'),
         Va('left-releases-on-normal-path-only', 'break', 'pcbasic/basic/values/values.py', in_fn('StringFunctions.left_', _release_inline), expect='roots.registration-released-on-every-exit'),
         Va('store-moves-before-check', 'break', ST, in_fn('StringSpace.store', _move_check_after), expect='store.check-before-move'),
         Va('sentinel-may-be-empty', 'break', ST,
